@@ -62,6 +62,10 @@ Definition dPod : dec pod :=
   let* i := dPos in let* j := dJobRef in let* n := dNodeRef in let* ph := dPhase in let* del := dBool in
   let* role := dPos in let* prio := dZ in let* pre := dBool in
   let* c := dZ in let* m := dZ in let* g := dZ in
+  (* the PodScheduled=False condition an earlier failed bind wrote (0 none, k = "failed to bind to
+     node n<k>", 9 = pre-bind failure): it decides whether taskUnschedulable's status write is a
+     no-op; delivered to the real cache, no effect on the cache state *)
+  let* _ := dZ in
   if (c <? 0) || (m <? 0) || (g <? 0) then fail
   else ret (mkPod i j n ph del role prio pre (mk_req c m g)).
 
@@ -89,10 +93,14 @@ Definition dPC : dec pcobj :=
 
 Inductive op := OEv (e : event) | OSnap | OPG (g : pgobj) (cls : Z) | OPrio (pc : pcobj) | OPrioDel (id : positive).
 
-(* outcome of the API side of a bind: 1 = bound; 0 = Binder.Bind fails; 2 = a pre-binder
-   fails and the pod status update succeeds; 3 = a pre-binder fails and the status update fails *)
+(* outcome of the API side of a bind: 1 = bound; 0 = Binder.Bind fails; 2 = a pre-binder fails;
+   3 = a pre-binder fails and the pod status write that follows fails too; 4 = Binder.Bind fails and
+   the status write fails too.  (Whether the status write is attempted at all depends on the
+   condition the pod already carries.)  Bind(): the status write's error is only logged, the
+   pre-binders are rolled back and resyncTask is called ALWAYS: for the cache every code but 1
+   is the same failure *)
 Definition dFault : dec bool :=
-  let* x := dZ in if (x <? 0) || (3 <? x) then fail else ret (x =? 1).
+  let* x := dZ in if (x <? 0) || (4 <? x) then fail else ret (x =? 1).
 
 Definition dOp : dec op :=
   let* c := dZ in
